@@ -366,29 +366,139 @@ theorem centroid_single_channel (exp : R → R) (σ : R) (s H W n : Nat)
     intro a _
     simp [nodeOf]
 
-/-! ## batches (F-C01)
+/-! ## argmax of a reduced (multi-instance / centroid) channel -/
 
-Full statement (false of the code for `n_samples > 1`): every sample of a batch gets the
-max-reduction over *its own* animals. -/
-def multi_batch_independent (T : Transc R) : Prop :=
-  ∀ (σ : R) (s H W n nNodes : Nat) (batch : List (List (List (Option (R × R))))),
-    multiConfmapsBatch T.exp Nat.cast σ s H W n nNodes batch
-      = batch.map (multiConfmaps T.exp Nat.cast σ s H W n nNodes)
+/-- distance-monotonicity across two different keypoints (same σ) -/
+theorem cm_antitone_dist_cross (T : Transc R) (sg : R) (hs : 0 < sg) (x y x' y' gx gy gx' gy' : R)
+    (h : d2 gx gy x y ≤ d2 gx' gy' x' y') :
+    cmCell T.exp sg (some (x', y')) gx' gy' ≤ cmCell T.exp sg (some (x, y)) gx gy := by
+  simp only [cmCell]
+  apply T.exp_mono
+  have h2 : (0 : R) < 2 * (sg * sg) := by positivity
+  rw [div_le_div_iff_of_pos_right h2]
+  linarith
 
-/-- **multi_batch_partial**: for a batch of one sample (the only way the datasets call it) the
-coded reduction is the per-sample one. -/
-theorem multi_batch_partial (exp : R → R) (σ : R) (s H W n nNodes : Nat)
+/-- **multi_argmax_nearest**: in a reduced channel, a grid point that is nearest to some reduced
+visible keypoint *among all (grid point, visible keypoint) pairs* attains the channel maximum.
+(`cells` is any set of grid points, e.g. all `(gp s j, gp s i)` of the map.) -/
+theorem multi_argmax_nearest (T : Transc R) (sg : R) (hs : 0 < sg) (kps : List (Option (R × R)))
+    (x y gx gy : R) (hk : some (x, y) ∈ kps) (cells : R → R → Prop)
+    (hnear : ∀ gx' gy' x' y', cells gx' gy' → some (x', y') ∈ kps →
+      d2 gx gy x y ≤ d2 gx' gy' x' y') :
+    ∀ gx' gy', cells gx' gy' → multiCell T.exp sg kps gx' gy' ≤ multiCell T.exp sg kps gx gy := by
+  intro gx' gy' hc
+  obtain ⟨hub, _, _⟩ := multi_eq_sup T.exp sg kps gx gy
+  obtain ⟨_, _, hatt⟩ := multi_eq_sup T.exp sg kps gx' gy'
+  have hbest := hub _ hk
+  rcases hatt with h0 | ⟨kp, hkp, hv⟩
+  · rw [h0]; exact le_trans (cm_pos_visible T sg x y gx gy).le hbest
+  · rw [hv]
+    cases kp with
+    | none => exact le_trans (le_of_eq rfl) (le_trans (cm_pos_visible T sg x y gx gy).le hbest)
+    | some p =>
+      obtain ⟨x', y'⟩ := p
+      exact le_trans (cm_antitone_dist_cross T sg hs x y x' y' gx gy gx' gy' (hnear gx' gy' x' y' hc hkp)) hbest
+
+/-! ## channel index of a rank-4 input -/
+
+/-- **flatten_channel_index**: `instance.view(n_samples, -1, 2)` — for `n_nodes` nodes per animal,
+channel `a·n_nodes + c` of `generate_confmaps` on a rank-4 input is node `c` of animal `a`. -/
+theorem flatten_channel_index (animals : List (List (Option (R × R)))) (n : Nat)
+    (hlen : ∀ a ∈ animals, a.length = n) (a c : Nat) (ha : a < animals.length) (hc : c < n) :
+    (flattenInst animals)[a * n + c]? = (animals[a]?).bind (·[c]?) := by
+  unfold flattenInst
+  induction animals generalizing a with
+  | nil => simp at ha
+  | cons x xs ih =>
+    have hx : x.length = n := hlen x List.mem_cons_self
+    rw [List.flatten_cons]
+    cases a with
+    | zero =>
+      simp only [Nat.zero_mul, Nat.zero_add, List.getElem?_cons_zero, Option.bind_some]
+      rw [List.getElem?_append_left (by omega)]
+    | succ k =>
+      have : (k + 1) * n + c = x.length + (k * n + c) := by rw [hx]; ring
+      rw [this, List.getElem?_append_right (by omega)]
+      simp only [Nat.add_sub_cancel_left, List.getElem?_cons_succ]
+      exact ih (fun a' ha' => hlen a' (List.mem_cons_of_mem _ ha')) k (by simpa using ha)
+
+theorem cm4_value (exp : R → R) (σ : R) (s H W n : Nat) (animals : List (List (Option (R × R))))
+    (hlen : ∀ a ∈ animals, a.length = n) (a c i j : Nat) (ha : a < animals.length) (hc : c < n)
+    (hi : i < gridLen H s) (hj : j < gridLen W s) :
+    cellAt3? (confmaps4 exp Nat.cast σ s H W animals) (a * n + c) i j
+      = some (cmCell exp (σ * (s : R)) (nodeOf animals[a] c) (gp s j) (gp s i)) := by
+  have hidx := flatten_channel_index animals n hlen a c ha hc
+  have hlt : a * n + c < (flattenInst animals).length := by
+    by_contra hcon
+    rw [List.getElem?_eq_none (by omega)] at hidx
+    rw [List.getElem?_eq_getElem ha] at hidx
+    have : c < animals[a].length := by rw [hlen _ (List.getElem_mem ha)]; exact hc
+    simp [List.getElem?_eq_getElem this] at hidx
+  unfold confmaps4
+  rw [cm_value exp σ s H W _ _ i j hlt hi hj]
+  congr 2
+  have h1 : (flattenInst animals)[a * n + c]? = some (flattenInst animals)[a * n + c] :=
+    List.getElem?_eq_getElem hlt
+  have hcl : c < animals[a].length := by rw [hlen _ (List.getElem_mem ha)]; exact hc
+  rw [h1, List.getElem?_eq_getElem ha] at hidx
+  simp only [Option.bind_some, List.getElem?_eq_getElem hcl] at hidx
+  unfold nodeOf
+  rw [List.getElem?_eq_getElem hcl]
+  exact Option.some.inj hidx
+
+/-! ## batches -/
+
+/-- **multi_batch_independent** (true of the code since fix 372b25e, F-C01): every sample of a batch
+gets the max-reduction over *its own* animals. -/
+theorem multi_batch_independent (exp : R → R) (σ : R) (s H W n nNodes : Nat)
+    (batch : List (List (List (Option (R × R))))) :
+    multiConfmapsBatch exp Nat.cast σ s H W n nNodes batch
+      = batch.map (multiConfmaps exp Nat.cast σ s H W n nNodes) := by
+  unfold multiConfmapsBatch multiConfmaps; rfl
+
+/-- cell level: sample `b`, channel `c`, cell `(i,j)` of the batched multi-instance maps is the
+max-reduction over sample `b`'s own first `n` animals -/
+theorem multi_batch_value (exp : R → R) (σ : R) (s H W n nNodes : Nat)
+    (batch : List (List (List (Option (R × R))))) (b c i j : Nat) (hb : b < batch.length)
+    (hc : c < nNodes) (hi : i < gridLen H s) (hj : j < gridLen W s) :
+    ((multiConfmapsBatch exp Nat.cast σ s H W n nNodes batch)[b]?).bind (cellAt3? · c i j)
+      = some (multiCell exp (σ * (s : R)) ((batch[b].take n).map (nodeOf · c)) (gp s j) (gp s i)) := by
+  rw [multi_batch_independent]
+  simp only [List.getElem?_map, List.getElem?_eq_getElem hb, Option.map_some, Option.bind_some]
+  exact multi_value exp σ s H W n nNodes _ c i j hc hi hj
+
+theorem centroid_batch_independent (exp : R → R) (σ : R) (s H W n : Nat)
+    (batch : List (List (Option (R × R)))) :
+    centroidConfmapsBatch exp Nat.cast σ s H W n batch
+      = batch.map (centroidConfmaps exp Nat.cast σ s H W n) := by
+  unfold centroidConfmapsBatch centroidConfmaps
+  rw [multi_batch_independent, List.map_map]; rfl
+
+/-- `generate_confmaps` treats the samples of a batch independently (by construction of
+`make_confmaps`' broadcasting; tied to the code by the correspondence on `n_samples = 2`). -/
+theorem cm_batch_independent (exp : R → R) (σ : R) (s H W : Nat)
+    (batch : List (List (Option (R × R)))) (b : Nat) (hb : b < batch.length) :
+    (confmapsBatch exp Nat.cast σ s H W batch)[b]? = some (confmaps exp Nat.cast σ s H W batch[b]) := by
+  simp [confmapsBatch, hb]
+
+/-! ### regression record for F-C01 (fixed in 372b25e) -/
+
+/-- the pre-fix reduction agreed with the per-sample one on a batch of one sample … -/
+theorem multi_batch_asIs_single (exp : R → R) (σ : R) (s H W n nNodes : Nat)
     (animals : List (List (Option (R × R)))) :
-    multiConfmapsBatch exp Nat.cast σ s H W n nNodes [animals]
+    multiConfmapsBatchAsIs exp Nat.cast σ s H W n nNodes [animals]
       = [multiConfmaps exp Nat.cast σ s H W n nNodes animals] := by
-  simp [multiConfmapsBatch, multiConfmaps]
+  simp [multiConfmapsBatchAsIs, multiConfmaps]
 
-/-- **multi_batch_counterexample**: 1×1 image, sample 0 has a keypoint at the origin, sample 1 has
-none — the coded reduction puts sample 0's bump (value 1) into sample 1's map, which should be 0. -/
-theorem multi_batch_counterexample (T : Transc R) : ¬ multi_batch_independent T := by
+/-- … and not on two: 1×1 image, sample 0 has a keypoint at the origin, sample 1 has none — the
+pre-fix reduction put sample 0's bump (value 1) into sample 1's map.  (The old `multi_batch_counterexample`.) -/
+theorem multi_batch_asIs_counterexample (T : Transc R) :
+    ¬ ∀ (σ : R) (s H W n nNodes : Nat) (batch : List (List (List (Option (R × R))))),
+      multiConfmapsBatchAsIs T.exp Nat.cast σ s H W n nNodes batch
+        = batch.map (multiConfmaps T.exp Nat.cast σ s H W n nNodes) := by
   intro h
   have := h 1 1 1 1 1 1 [[[some (0, 0)]], [[none]]]
-  simp [multiConfmapsBatch, multiConfmaps, makeMultiConfmaps, tabulate, gridVec, gridLen, multiCell,
+  simp [multiConfmapsBatchAsIs, multiConfmaps, makeMultiConfmaps, tabulate, gridVec, gridLen, multiCell,
     nodeOf, cmCell, d2, maxR, T.exp_zero] at this
 
 /-! ## non-vacuity: the hypotheses are met by concrete values over ℝ -/
@@ -403,5 +513,19 @@ example : cmCell realTransc.exp (3 : ℝ) (some (0, 0)) 4 0 ≤ cmCell realTrans
   cm_antitone_dist realTransc 3 (by norm_num) 0 0 2 0 4 0 (by norm_num [d2])
 
 example : (2 : Nat) ∣ 8 ∧ gridLen 8 2 = 4 ∧ gridLen 7 2 = 4 := by decide
+
+-- multi_argmax_nearest: keypoints (0,0) and (5,5), cells {(0,0),(2,0)}: the cell (0,0) is nearest
+example : ∀ gx' gy' : ℝ, ((gx' = 0 ∨ gx' = 2) ∧ gy' = 0) →
+    multiCell realTransc.exp (1 : ℝ) [some (0, 0), some (5, 5)] gx' gy'
+      ≤ multiCell realTransc.exp (1 : ℝ) [some (0, 0), some (5, 5)] 0 0 :=
+  multi_argmax_nearest realTransc 1 one_pos _ 0 0 0 0 (by simp) (fun gx' gy' => (gx' = 0 ∨ gx' = 2) ∧ gy' = 0)
+    (by
+      intro gx' gy' x' y' hc hk
+      have h0 : d2 (0 : ℝ) 0 0 0 = 0 := by simp [d2]
+      rw [h0]; exact d2_nonneg _ _ _ _)
+
+-- flatten_channel_index: 2 animals × 2 nodes, channel 1·2+1 is node 1 of animal 1
+example : (flattenInst [[some ((0 : ℝ), 0), none], [some (1, 1), some (2, 2)]])[1 * 2 + 1]? = some (some (2, 2)) := by
+  rw [flatten_channel_index _ 2 (by simp) 1 1 (by simp) (by norm_num)]; rfl
 
 end SleapVerif.C01
